@@ -142,6 +142,21 @@ def build(m, routes=None, perm=None, backend="lambda", as_ode=False, container="
     build with the same dict hands the SAME Python objects to another model (bare Transitions passed as events are
     always fresh: add_event documents that it rewrites them)."""
     SimulateOde, Transition, _E, ode_utils = _pg()
+    ir.STATE_ALIAS.clear()
+    if m.get("bracket_refs"):
+        for d in m["state_decl"]:
+            if "range" in d:
+                base = d["names"][0].rstrip("0123456789")
+                for i, nm in enumerate(d["names"]):
+                    ir.STATE_ALIAS[nm] = "%s[%d]" % (base, i)
+    try:
+        return _build(m, routes, perm, backend, as_ode, container, pool)
+    finally:
+        ir.STATE_ALIAS.clear()
+
+
+def _build(m, routes, perm, backend, as_ode, container, pool):
+    SimulateOde, Transition, _E, ode_utils = _pg()
     events = m.get("events", [])
     n_e = len(events)
     routes = list(routes) if routes is not None else ["event"] * n_e
